@@ -428,6 +428,9 @@ func (e *Exec) do64(c *Call, ev *Event) (targets []int) {
 		ev.Arr = e.projArr(normalize(sp), ev)
 		ev.Ret = numFromU64(uint64(len(arr)))
 	default:
+		if e.doIter(c, ev) {
+			return nil
+		}
 		if !e.doSerial64(c, ev, &targets) {
 			panic("unknown 64-bit op " + c.Op)
 		}
